@@ -44,7 +44,7 @@ CHECKS.update({
    text="The translator's worker pool runs under the seeded scheduler for every sampled (module, option combination, output path): termination, exit status, the exact output file-name set and byte-identity of all files with the canonical '-t 1' unpreempted run decide schedule/thread-count independence. Because option equivalence of behaviour is not a schedule property, a stratified sample of canonical outputs is additionally compiled file-by-file and spec-suite modules are built and executed under 7 option variants (pretty, -f, -g, -m, gnu-ld, threads) with their assert transcripts compared to the default build.",
    note="interleavings are sequentially consistent; behaviour equivalence across options is sampled (not simulated): 6 modules quick / 80 thorough, stratified by data-segment shape; build-configuration variants (no pthreads, bundled getopt/libgen) are not part of the quick tier", ref="5/C09"),
  "C10": dict(engine="simxl", cat="fault_enumeration", tech="deterministic simulation with torn-input fault enumeration: every run serves only the first k bytes of a valid module (k sampled; exhaustive for small modules in the thorough tier) under a seeded option/schedule swarm, ASan/UBSan-memory as oracle",
-   text="Valid modules (96 seeded synthetic ones with wild UTF-8/punctuation/long names, many locals, deep nesting, duplicated bodies + 48 spec-suite modules + coremark) and their proper prefixes are translated under seeded option combinations and worker schedules, and every one of the 874 valid spec-suite modules (committed list with content hashes, not "what the translator accepts today") is translated once per run; the run must exit 0 (valid) or exit 0 / non-zero with a diagnostic (prefix), never die on a signal, sanitizer report, assertion or hang.",
+   text="Valid modules (96 seeded synthetic ones with wild UTF-8/punctuation/long names, many locals, deep nesting, duplicated bodies + 48 spec-suite modules + coremark) and their proper prefixes are translated under seeded option combinations and worker schedules, and every one of the 874 valid spec-suite modules (committed list with content hashes, not 'what the translator accepts today') is translated once per run; the run must exit 0 (valid) or exit 0 / non-zero with a diagnostic (prefix), never die on a signal, sanitizer report, assertion or hang.",
    note="allocation failures and write errors are not injected (outside the statement); sanitizer set = address + null/bounds/alignment/object-size/nonnull (memory operations), not arithmetic UB", ref="5/C10"),
  "C20": dict(engine="simxl", cat="exploration", tech="deterministic simulation: invariant monitor at every mutating libc call plus before/after diff of a real scratch tree, across seeded options, path shapes, near-miss decoy files, worker schedules and fopen/fclose faults",
    text="Each run builds a scratch tree with the input (sometimes inside the output directory), a reference module and 4-13 decoy files whose names nearly match the implementation-file pattern, inside and outside the output directory; the translator may create/overwrite only out.c, its header, [sd]<10 digits>.c and 'datasegments' in the output directory and, with -c, delete only names matching the pattern - checked at the call and by diffing the tree, also after injected fopen/fclose errors. Output directories include names that are glob patterns with sibling directories they match.",
